@@ -8,7 +8,7 @@ import cli_cfg
 def replay(prop, path, vxname):
     body = json.load(open(path))
     case = body.get("case", {})
-    if "cli_c18_cp" in case or "cli_c17_names" in case or "cli_c17_regen" in case or "cli_c17_else" in case or "cli_c17" in case or "cli_c18" in case or "cli_c08" in case or "cli_c08_repeat" in case or "cli_c08_show" in case or "cli_c08_tiny" in case:
+    if "cli_c18_cp" in case or "cli_c18_defaults" in case or "cli_c17_names" in case or "cli_c17_regen" in case or "cli_c17_else" in case or "cli_c17" in case or "cli_c18" in case or "cli_c08" in case or "cli_c08_repeat" in case or "cli_c08_show" in case or "cli_c08_tiny" in case or "cli_c08_latest" in case:
         defects = cli_cfg.replay_case(prop, case)
     elif "cli_cyc_ckpt" in case:
         n, edges = case["cli_cyc_ckpt"][:2]
@@ -29,7 +29,7 @@ def replay(prop, path, vxname):
     elif "cli_config" in case or "cli_graph" in case:
         if "cli_graph" in case:
             g = case["cli_graph"]
-            r = cli_slices.graph_task((prop, g["n"], [tuple(e) for e in g["edges"]], g["files"]))
+            r = cli_slices.graph_task((prop, g["n"], [tuple(e) for e in g["edges"]], g["files"], g.get("ign")))
             defects = [{"sig": "cli:" + s, "detail": d} for s, d, _ in r["v"]]
         elif prop == "C10":
             defects = [{"sig": "cli:" + s, "detail": d} for s, d in cli_slices.c10_task(case["cli_config"]["targets"])]
